@@ -43,6 +43,21 @@ def auto_models(seed):
             # the differential equations are listed in the opposite order of the declaration of the states
             op2 = dict(name="opx", eqs=[["x2", "de", t2], ["x1", "de", t1]], vars=vars_)
             out.append((f"AU-{n}-params-equations-reversed", dict(n_params=n, reversed=True), gen.model([op2], {"p": dict(ops=["opx"])})))
+    # values with many decimals / small magnitudes (STPNT must carry the model's values, not a rounded spelling of them)
+    small = dict(name="opx", eqs=[["x1", "de", ["-", ["*", V("k1"), V("x2")], ["*", V("k3"), V("x1")]]],
+                                  ["x2", "de", ["-", ["*", V("k2"), V("x1")], V("x2")]]],
+                 vars={"x1": ["output", 0.912345678912], "x2": ["state", 2.0 ** -13], "k1": ["const", 2.0 ** -20], "k2": ["const", 0.123456789012],
+                       "k3": ["const", 1234.5678912345]})
+    out.append(("AU-small-and-long-values", dict(n_params=3, small=True), gen.model([small], {"p": dict(ops=["opx"])})))
+    # a second-order system: the FIRST equation has no parameter at all, the second has three
+    so = dict(name="opx", eqs=[["x1", "de", V("x2")],
+                               ["x2", "de", ["+", ["-", ["neg", ["*", V("k1"), V("x1")]], ["*", V("k2"), V("x2")]], V("k3")]]],
+              vars={"x1": ["output", 0.9], "x2": ["state", 0.5], "k1": ["const", 1.3], "k2": ["const", 0.4], "k3": ["const", 0.25]})
+    out.append(("AU-second-order-parameter-free-first-equation", dict(n_params=3), gen.model([so], {"p": dict(ops=["opx"])})))
+    so3 = dict(name="opx", eqs=[["x1", "de", ["*", V("k1"), V("x2")]], ["x2", "de", V("x3")],
+                                ["x3", "de", ["-", ["*", V("k2"), V("x1")], ["*", V("k3"), V("x3")]]]],
+               vars={"x1": ["output", 0.9], "x2": ["state", 0.5], "x3": ["state", -0.2], "k1": ["const", 1.3], "k2": ["const", 0.4], "k3": ["const", 0.25]})
+    out.append(("AU-parameter-free-middle-equation", dict(n_params=3), gen.model([so3], {"p": dict(ops=["opx"])})))
     return out
 
 
@@ -104,7 +119,7 @@ def case_fn(c):
     # STPNT
     st = src[src.index("subroutine stpnt"):src.index("end subroutine stpnt")]
     for k, val, name in re.findall(r"args\((\d+)\)\s*=\s*([^!\n]+?)\s*!\s*(\S+)", st):
-        if name not in slot_of or int(k) != slot_of[name] or abs(float(val.replace("d", "e")) - values[name]) > 1e-9 * max(1, abs(values[name])):
+        if name not in slot_of or int(k) != slot_of[name] or abs(float(val.replace("d", "e")) - values[name]) > 1e-12 * abs(values[name]) + 1e-300:
             fail("auto: STPNT writes every parameter's value into its own slot", var=name, observed=f"args({k}) = {val}",
                  expected=f"args({slot_of.get(name)}) = {values.get(name)}")
             break
@@ -113,7 +128,7 @@ def case_fn(c):
         fail("auto: STPNT initialises every parameter exactly once", observed=len(re.findall(r"args\(\d+\)\s*=", st)), expected=len(declared))
     states = [l for l, k, _ in op["eqs"] if k == "de"]
     for i, (val, name) in ystp.items():
-        if unames.get(i) != name or abs(val - values[name]) > 1e-9:
+        if unames.get(i) != name or abs(val - values[name]) > 1e-12 * abs(values[name]) + 1e-300:
             fail("auto: unames / STPNT y(i) follow the state layout with the declared initial values", var=name,
                  observed=dict(unames=unames.get(i), y=val), expected=values[name])
     body0 = src[src.index("subroutine vfx"):src.index("end subroutine")]
